@@ -78,6 +78,10 @@ def all_plans():
                 plans.append({'kind': 'raise', 'exc': 'OSError', 'point': 'mid_file', 'file': 0,
                               'k': k, 'workers': workers, 'nfiles': nfiles, 'gz': gz,
                               'decode': 'ignore'})
+    # a task exception that cannot be pickled back to the parent
+    for point in ('mid_file', 'put_before', 'sync_inside'):
+        plans.append({'kind': 'raise', 'exc': 'unpicklable', 'point': point, 'file': 1, 'k': 1,
+                      'workers': 2, 'nfiles': 3})
     # natural faults: a damaged gzip file among good ones (worker processes) or alone (in-process)
     for how in ('crc', 'trunc', 'junk'):
         for workers, nfiles in ((2, 3), (2, 1)):
@@ -209,6 +213,7 @@ def judge(rep, item, mo, control):
            (f" other files {plan['big']} lines, results queue of {plan['queue_size']}"
             if plan.get('big') else '') + \
            (f" damaged gzip ({plan['how']})" if plan['kind'] == 'corrupt' else '') + \
+           (" (unpicklable exception object)" if plan.get('exc') == 'unpicklable' else '') + \
            (f" {'gzip' if plan.get('gz') else 'plain'} files, {plan.get('exc', 'exception')}, "
             f"decode_errors={plan['decode']}" if plan.get('decode') else '')
     if 'start' not in r:
@@ -298,6 +303,7 @@ def run(tier, seed, replay_case=None):
         must += [p for p in plans if p.get('big') and p['workers'] == 1
                  and p['point'] in ('none', 'before_open')]
         must += [p for p in plans if p['kind'] == 'inproc']
+        must += [p for p in plans if p.get('exc') == 'unpicklable' and p['point'] == 'mid_file']
         must += [p for p in plans if p['kind'] == 'corrupt' and
                  (p['how'], p['nfiles']) in (('crc', 3), ('trunc', 1))]
         must += [p for p in plans if p['kind'] == 'none' and p.get('gz') and p['nfiles'] == 1]
